@@ -56,6 +56,9 @@ let handle kind c =
                                    (if Z.leb delay want then "BEFORE" else "AFTER"))
       end;
       check_eq (Printf.sprintf "timer-span-%d" k) (fun (a, b) -> tok_of_z a ^ "," ^ tok_of_z b) s (b, e);
+      if not (span_ok !cur_now w (b, e)) then
+        prop "span-shape" (Printf.sprintf "stage %d of a rotating process: at now=%s (weekend %s) the new file has begin=%s end=%s" k
+                             (tok_of_z !cur_now) (tok_of_z w) (tok_of_z b) (tok_of_z e));
       if npend <> 1 then begin
         chain_ok := false;
         prop "rotation-chain" (Printf.sprintf "stage %d: %d timers armed after rotate (the next rotation must be scheduled exactly once)" k npend)
@@ -74,6 +77,45 @@ let handle kind c =
       diff "timer-files" ~model:(show want) ~impl:(show (List.sort compare files));
       if !chain_ok then prop "rotation" (Printf.sprintf "increments after a recorded end are not in the next span's file: %s" (show files))
     end
+  | "uploadmulti" ->
+    (* several programs and weeks, one run: a file is consumed iff its recorded
+       end is before the start, and then its count is in the report named by
+       the date of that end, under its program *)
+    let ss = next_z c in
+    let sn = next_z c in
+    let files = next_list c (fun c ->
+        let p = next_int c in let e = next_z c in let n = next_z c in let consumed = next_bool c in (p, e, n, consumed)) in
+    let reps = next_list c (fun c -> let wk = next_bytes c in let p = next_int c in let v = next_z c in (wk, p, v)) in
+    List.iter (fun (p, e, n, consumed) ->
+        let m = uploader_consumes e (ss, sn) in
+        if m <> consumed then
+          prop "finished-iff-end-before-start"
+            (Printf.sprintf "program %d end=%s start=%s.%s consumed=%b" p (tok_of_z e) (tok_of_z ss) (tok_of_z sn) consumed);
+        if m then begin
+          let wk = uploader_week e in
+          match List.filter (fun (w, q, _) -> w = wk && q = p) reps with
+          | [(_, _, v)] ->
+            if v <> n then
+              prop "week-named-by-end-date" (Printf.sprintf "program %d, recorded end %s: the report of week %s has c=%s for it, the file had %s"
+                                               p (tok_of_z e) (string_of_bytes wk) (tok_of_z v) (tok_of_z n))
+          | l ->
+            prop "week-named-by-end-date" (Printf.sprintf "program %d, finished file with recorded end %s (%s increments): %d entries for it in the report of week %s (reports: %s)"
+                                             p (tok_of_z e) (tok_of_z n) (List.length l) (string_of_bytes wk)
+                                             (String.concat ";" (List.map (fun (w, q, v) -> string_of_bytes w ^ "/" ^ string_of_int q ^ "=" ^ tok_of_z v) reps)))
+        end) files;
+    (* the model of the run (theorem C09_run_reports_each_file_under_its_week): same entries, same files left *)
+    let mfiles = List.map (fun (p, e, n, _) -> ((nat_of_int p, e), n)) files in
+    let want = List.sort compare (List.map (fun ((wk, p), n) -> (wk, int_of_nat p, n)) (run_entries mfiles (ss, sn))) in
+    let show l = String.concat ";" (List.map (fun (w, q, v) -> string_of_bytes w ^ "/" ^ string_of_int q ^ "=" ^ tok_of_z v) l) in
+    check_eq "run-entries" show want (List.sort compare reps);
+    let left = List.sort compare (List.map (fun ((p, e), n) -> (int_of_nat p, e, n)) (run_leaves mfiles (ss, sn))) in
+    let left_impl = List.sort compare (List.filter_map (fun (p, e, n, consumed) -> if consumed then None else Some (p, e, n)) files) in
+    check_eq "run-leaves" (fun l -> String.concat ";" (List.map (fun (p, e, n) -> string_of_int p ^ "/" ^ tok_of_z e ^ "=" ^ tok_of_z n) l)) left left_impl;
+    (* nothing is reported that no finished file accounts for *)
+    List.iter (fun (wk, p, v) ->
+        if not (List.exists (fun (q, e, n, _) -> q = p && uploader_consumes e (ss, sn) && uploader_week e = wk && n = v) files) then
+          prop "week-named-by-end-date" (Printf.sprintf "the report of week %s has program %d with c=%s, which no finished file of that week accounts for"
+                                           (string_of_bytes wk) p (tok_of_z v))) reps
   | "realclock" ->
     let t0 = next_z c in
     let t1 = next_z c in
